@@ -22,6 +22,17 @@ the same set, depth ≤ max depth under guarded refinement, members of P at maxi
 (F): every array, S, P, latch, counters, leaf set, discarded set equal the model replay
 (`Algo.run` / `Space.runOps` on the observed operation sequence).
 
+Extension (Model/AdaptiveVh.lean; driver ops `vh`, `refine`, `adbeta`): the `RealLike` terms of
+`calculate_design_vh`, `should_refine_design` and `VOGP_AD.compute_beta` evaluated at `Float` are compared
+(F, relative 1e-9) with the real functions — at every `should_refine_design` call of the space and run
+families, at every `compute_beta` call of the run family, and in two direct families ``vh`` (real
+`AdaptivelyDiscretizedDesignSpace` at a chosen depth, scripted per-objective lengthscales / variances /
+posterior variances / scales, depth offsets −1, 0, 1) and ``beta`` (real `compute_beta` on a scripted kernel
+matrix).  The Boolean answer of `should_refine_design` is compared with the model's decision unless some
+`scale_j·‖std‖` is within a relative 1e-9 of `‖Vh‖` (borderline: counted, not compared).  The real GP is only
+asked where it reports at least `objective_dim` lengthscales (otherwise `calculate_design_vh` raises — the known
+finding D8, C06's verdict).
+
 A crash of the real code inside a run ends the observation of that run and is recorded as
 `run_crash_info:<exception>@<frame>` (crash-freedom is C06's verdict, not C18's).
 """
@@ -31,6 +42,7 @@ from itertools import product as _product
 import numpy as np
 
 from harness import core
+from harness.props import c18_vh as _vh   # RealLike terms: Vh / refinement decision / beta (extension)
 
 TITLE = "Adaptive discretisation / VOGP_AD set surgery vs Lean model"
 RULE = ("space: (d in 1..3, max depth <= 6, op sequence of direct/guarded refinements of random leaves and "
@@ -38,7 +50,10 @@ RULE = ("space: (d in 1..3, max depth <= 6, op sequence of direct/guarded refine
         "contraction, depth_max, seed) observed after every run_one_step up to a round cap; phase: (tree, S, P, "
         "latch, alg max depth, one phase with scripted geometry verdicts), including a structured 'gate' family: "
         "reachable states with depth_max 4/5 where only the oldest / newest / a majority / min+max index / one "
-        "member of S is at maximum depth and nothing is covered. Non-trivial = at least two "
+        "member of S is at maximum depth and nothing is covered; vh: (d 1..3, m 2..4, delta, depth 1..7, max depth, "
+        "offset, per-objective lengthscale/variance [large Cki | small Cki (term4 active) | mixed], posterior "
+        "variances, scale [scalar | vector | placed at the decision boundary | far]); beta: (noise_var, delta, "
+        "contraction, kernel matrix [rbf gram | random psd | identity | tiny], size 1..8). Non-trivial = at least two "
         "refinements happened (space/run) or the phase changed S, P, the latch or the tree; distinct by the "
         "whole case dict")
 ASSUMPTIONS = [
@@ -523,6 +538,13 @@ def gen(ctx):
             yield _gen_phase(ctx, rng, big)
         if j < n_run:
             yield _gen_run(ctx, rng, big)
+    # extension families, generated after everything above (the older streams are unchanged)
+    n_vh, n_beta = ctx.n(150, 6000), ctx.n(80, 3000)
+    for j in range(max(n_vh, n_beta)):
+        if j < n_vh:
+            yield _vh.gen_vh(ctx, rng, j)
+        if j < n_beta:
+            yield _vh.gen_beta(ctx, rng, j)
 
 
 # ------------------------------------------------------------------------------------------ run_case
@@ -547,6 +569,10 @@ def run_case(ctx, case):
             torch.set_num_threads(nt)
     if kind == "phase":
         return _run_phase(ctx, case)
+    if kind == "vh":
+        return _vh.run_vh(ctx, case)
+    if kind == "beta":
+        return _vh.run_beta(ctx, case)
     raise ValueError(kind)
 
 
@@ -584,6 +610,7 @@ def _run_space(ctx, case):
             if op[0] == "Q":
                 stub.forced_std = 0.0 if op[2] else 1e9
                 ans = bool(ds.should_refine_design(stub, i, scale))
+                _vh.compare(ctx, case, _vh.capture(ds, stub, i, scale), ans, "space")
                 stub.forced_std = None
                 answers.append(ans)
                 tokens.append(f"Q:{i}:{op[2]}")
@@ -674,6 +701,9 @@ class _Recorder:
         ds = alg.design_space
         self._o = {"modeling": alg.modeling, "discarding": alg.discarding, "cover": alg.epsiloncovering,
                    "evalref": alg.evaluate_refine, "sr": ds.should_refine_design, "rd": ds.refine_design}
+        self.vh_obs, self.beta_obs, self.notes_beta = [], [], 0
+        self._o["beta"] = alg.compute_beta
+        alg.compute_beta = self.beta
         alg.modeling = self.modeling
         alg.discarding = self.discarding
         alg.epsiloncovering = self.cover
@@ -705,9 +735,23 @@ class _Recorder:
         self.tokens.append("C:" + core.nats(sorted(a.P - P0)))
 
     def sr(self, model, idx, scale):
+        cap = _vh.capture(self.alg.design_space, model, idx, scale)
         r = self._o["sr"](model, idx, scale)
         self.sr_calls.append((int(idx), bool(r)))
+        self.vh_obs.append((cap, bool(r)))
         return r
+
+    def beta(self):
+        a = self.alg
+        b = self._o["beta"]()
+        try:
+            Kn = np.asarray(a.model.evaluate_kernel(), dtype=float)
+            det = float(np.linalg.det(Kn + np.eye(len(Kn))))
+            self.beta_obs.append((float(a.problem.noise_var), float(a.delta), det, float(a.conf_contraction),
+                                  np.array(b, dtype=float).copy()))
+        except Exception:
+            self.notes_beta += 1
+        return b
 
     def rd(self, idx):
         n0 = len(self.alg.design_space.points)
@@ -784,6 +828,12 @@ def _run_algo(ctx, case):
             status = "crash"
             break
         nrounds += 1
+        # ---------------- (F) RealLike terms: Vh / refinement decision / beta of this round
+        for (cap_, ans_) in rec.vh_obs:
+            _vh.compare(ctx, case, cap_, ans_, "run")
+        for ob in rec.beta_obs:
+            _vh.beta_compare(ctx, case, ob, "run")
+        rec.vh_obs, rec.beta_obs = [], []
         if alg.round != round_before:
             rec.tokens.append("N")
         # ---------------- (R) on the real state
